@@ -90,6 +90,7 @@ type jcase struct {
 	OK      bool   `json:"ok"`
 	Err     string `json:"err,omitempty"`
 	Mutated string `json:"mutated,omitempty"`
+	History *jhist `json:"history,omitempty"`
 }
 
 // mutate makes a random (usually valid) variation of a record
@@ -146,6 +147,8 @@ func mutate(r *hx.Rng, p *govtypes.NetworkProperties, invalidPct int) (*govtypes
 func main() {
 	outDir := flag.String("out", ".", "output directory")
 	n := flag.Int("n", 400, "number of random cases (on top of the systematic sweep)")
+	nh := flag.Int("hist", 6, "number of histories on the real chain (ABCI)")
+	hsteps := flag.Int("hsteps", 8, "write steps per history")
 	flag.Parse()
 	out := hx.Out{Dir: *outDir}
 	seed := hx.Seed()
@@ -303,6 +306,11 @@ func main() {
 	// genesis import through the REAL application path (InitChain -> module manager -> gov
 	// AppModule.InitGenesis): either the chain refuses to start, or the stored record is the given one
 	doGenApp := func(nw *govtypes.NetworkProperties, how string) {
+		// the request is what the genesis file carries (a nil decimal is written as "0")
+		var wire govtypes.NetworkProperties
+		if err := app.AppCodec().UnmarshalJSON(app.AppCodec().MustMarshalJSON(nw), &wire); err == nil {
+			nw = &wire
+		}
 		var after *govtypes.NetworkProperties
 		p := hx.Try(func() {
 			c := abci.NewChain(abci.Config{Accounts: 2, Validators: 1, Seed: seed, Gov: func(g *govtypes.GenesisState) { g.NetworkProperties = clone(nw) }})
@@ -365,6 +373,18 @@ func main() {
 			nw, how := mutate(r, cfgs[r.Intn(len(cfgs))], 30)
 			doGen(nw, how)
 		}
+	}
+
+	// ---- histories through ABCI (real tx path, real proposal life cycle)
+	for i := 0; i < *nh; i++ {
+		term, jh := runHistory(r, seed+uint64(i)*7919, cfgs[0], *hsteps, func(recs []govtypes.IdentityRecord) int {
+			recsets = append(recsets, recset{recs: recs})
+			return len(recsets) - 1
+		})
+		for _, st := range jh.Steps {
+			dist.Inc("history-step:" + strings.SplitN(st.Kind, ":", 2)[0] + ":" + map[bool]string{true: "accepted", false: "rejected"}[st.OK])
+		}
+		emit(term, jcase{Kind: "history", OK: true, History: &jh})
 	}
 
 	// ---- write pre.v / cases.txt / meta.json (assembled into shards by lib/vlib.py)
